@@ -21,7 +21,7 @@ def run(ck):
                 continue
             nclassic += 1
             if b["compile"] != "OK":
-                if b["compile"].startswith(("PANIC", "ABORT", "TIMEOUT")):
+                if b["compile"].startswith(("PANIC", "ABORT")):
                     direct.append({"clause": "the classic compiler crashed or did not return", **L.short(r, "classic", opt), "result": b["compile"][:200]})
                 continue
             for k, (st, want) in enumerate(r["ref"]):
